@@ -134,11 +134,15 @@ func (t *Transport) DialPeer(ctx context.Context, peerID peer.ID, as string) (li
 		return nil, false, ErrDialUnimplemented
 	}
 
-	// abort if we already have a peer with the same addr connected
-	ok, err := CheckAlreadyConnected(t, as, peerID)
-	if ok || err != nil {
-		// returns an error if already connected w/ different peer id
+	// if we already have a link with the peer at this addr, yield that link: the
+	// caller waits for the link of this (peer id, address) tuple.
+	// returns an error if already connected w/ different peer id
+	elnk, err := LookupAlreadyConnected(t, as, peerID)
+	if err != nil {
 		return nil, false, err
+	}
+	if elnk != nil {
+		return elnk, false, nil
 	}
 
 	var dl *Dialer
